@@ -105,7 +105,7 @@ def run_entry(entry, X, metric_name, rng, p, calls):
         c = Call(fn, *a, **k)
         calls.append(c)
         return c()
-    m = cc.metric_arg(metric_name)
+    m = cc.metric_arg(metric_name, rng)
     ref = cc.ref_metric(metric_name)
     n = len(X)
     k = p['k']
